@@ -63,8 +63,7 @@ impl Hyp {
             return 1.0;
         }
         // d1 = K n / N - x
-        let num = self.kk as i128 * self.n as i128 - x as i128 * self.nn as i128;
-        let d1 = num as f64 / self.nn as f64;
+        let d1 = self.mean_minus(x);
         let (pp, qq) = (self.n as f64 / self.nn as f64, (self.nn - self.n) as f64 / self.nn as f64);
         let kf = self.kk as f64;
         let p1 = binom_raw(x as f64, kf, (self.kk - x) as f64, d1, kf * pp, kf * qq, self.lp, self.lq);
@@ -73,6 +72,15 @@ impl Hyp {
         let nkf = nk as f64;
         let p2 = binom_raw(y as f64, nkf, (nk - y) as f64, -d1, nkf * pp, nkf * qq, self.lp, self.lq);
         p1 * p2 / self.p3
+    }
+    /// K n / N - x, exact numerator (i128) whenever the products fit
+    fn mean_minus(&self, x: u64) -> f64 {
+        if self.nn < (1u64 << 62) {
+            let num = self.kk as i128 * self.n as i128 - x as i128 * self.nn as i128;
+            num as f64 / self.nn as f64
+        } else {
+            self.kk as f64 * (self.n as f64 / self.nn as f64) - x as f64
+        }
     }
     /// pmf(x+1)/pmf(x)
     #[inline]
@@ -184,8 +192,7 @@ impl Lattice for Hyp {
         self.up(k)
     }
     fn below_center(&self, k: u64) -> bool {
-        let num = self.kk as i128 * self.n as i128 - k as i128 * self.nn as i128;
-        2 * num > self.nn as i128
+        self.mean_minus(k) > 0.5
     }
     fn mean_sd(&self) -> (f64, f64) {
         let m = self.moments();
@@ -435,9 +442,8 @@ impl Disc {
                 if sd <= SD_SUM_MAX {
                     sum_tails(&h, k)
                 } else {
-                    let num = k as i128 * total as i128 - feature as i128 * draws as i128;
                     let _ = mean;
-                    let z = (num as f64 / total as f64 + 0.5) / sd;
+                    let z = (0.5 - h.mean_minus(k)) / sd;
                     edgeworth(z, sd, g1, g2)
                 }
             }
@@ -534,8 +540,43 @@ impl Disc {
         if !ok(shi) {
             return shi;
         }
-        // invariant: !ok(lo), ok(hi)
+        // invariant: !ok(lo), ok(hi).  Bracket around the mean first: evaluating the cdf at
+        // the far end of a huge support can be very slow (and is pointless).
         let (mut lo, mut hi) = (slo, shi);
+        let (mean, sd) = (self.mean(), self.sd());
+        if mean.is_finite() && sd.is_finite() {
+            let mut span = 50.0 * sd + 50.0;
+            for _ in 0..64 {
+                let cand = mean + span;
+                if cand >= shi as f64 {
+                    break;
+                }
+                let c = (cand as u64).max(slo);
+                if ok(c) {
+                    hi = c;
+                    break;
+                }
+                lo = c;
+                span *= 4.0;
+            }
+            let mut span = 50.0 * sd + 50.0;
+            for _ in 0..64 {
+                let cand = mean - span;
+                if cand <= lo as f64 {
+                    break;
+                }
+                let c = cand as u64;
+                if c >= hi {
+                    break;
+                }
+                if !ok(c) {
+                    lo = c;
+                    break;
+                }
+                hi = c;
+                span *= 4.0;
+            }
+        }
         while hi - lo > 1 {
             let mid = lo + (hi - lo) / 2;
             if ok(mid) {
@@ -559,11 +600,13 @@ impl Disc {
                 }
             }
             Disc::Hypergeometric { total, feature, draws } => {
-                let sd = Hyp::new(total, feature, draws).moments().1;
+                let (mean, sd, _, _) = Hyp::new(total, feature, draws).moments();
+                // beyond 2^62 the centring K n / N - k is only computed in f64
+                let centring = if total >= (1u64 << 62) && sd > 0.0 { 4.0 * f64::EPSILON * mean / sd } else { 0.0 };
                 if sd <= SD_SUM_MAX {
-                    1e-12
+                    1e-12 + centring
                 } else {
-                    1e-12 + 1.0 / (sd * sd * sd)
+                    1e-12 + 1.0 / (sd * sd * sd) + centring
                 }
             }
             _ => 1e-12,
